@@ -189,6 +189,9 @@ class Check:
                     self.known_hits.append(line)
                     print(line, flush=True)
                 return 'known'
+        for v in self.violations:
+            if v['key'] == key and v['what'] == what:
+                return 'violation'        # same violation reached through another obligation: one line is enough
         h = hashlib.sha1(json.dumps(replay, sort_keys=True, default=str).encode()).hexdigest()[:10]
         path = os.path.join(ROOT, 'replays', '%s-%s.json' % (self.pid, h))
         os.makedirs(os.path.dirname(path), exist_ok=True)
